@@ -1,15 +1,19 @@
-//! C13: request-response correspondence. The REAL `RequestResponseProtocol` runs over a real
-//! `TransportService`; the harness plays the transport (scripted `InnerTransportEvent`s and
-//! connection command channels), the remote peers (in-memory byte carriers under the crate's own
-//! `Substream` type) and the user (the public `RequestResponseHandle`), on a paused tokio clock.
-//! After every stimulus the event loop is single-stepped until nothing is ready, and the events
-//! seen by the user, the frames seen by the remote side and the private bookkeeping are printed.
+//! C13: request-response correspondence. The REAL `RequestResponseProtocol::run` future runs over a
+//! real `TransportService` attached to the handle of a real `TransportManager`; the harness plays
+//! the transport (scripted `InnerTransportEvent`s and connection command channels), the manager's
+//! belief about every peer (which decides what `dial()` returns), the remote peers (in-memory byte
+//! carriers under the crate's own `Substream` type) and the user (the public
+//! `RequestResponseHandle`), on a paused tokio clock. After every stimulus the `run` future is
+//! polled by hand until nothing is ready, and the events seen by the user, the frames seen by the
+//! remote side, the `dial()` calls with their results and the private bookkeeping (published by
+//! the loop itself every time it comes back to its `select!`) are printed.
 //! Case and trace format: see coq/C13/Glue.v.
 use crate::util::*;
 use futures::{FutureExt, StreamExt};
 use litep2p::{
+    error::ImmediateDialError,
     protocol::request_response::{
-        verif::{VerifProtocol, VerifStep},
+        verif::{self as rrv, VerifProtocol},
         DialOptions, RejectReason, RequestResponseError, RequestResponseEvent,
         RequestResponseHandle,
     },
@@ -191,12 +195,24 @@ fn describe(bytes: &[u8]) -> (u64, u64) {
     }
 }
 
+/// Result codes of `TransportService::dial` (D_* of coq/C13/Model.v; 0 and 1 are the two `Ok`s).
+fn dial_error_code(e: &ImmediateDialError) -> u64 {
+    match e {
+        ImmediateDialError::TriedToDialSelf => 2,
+        ImmediateDialError::AlreadyConnected => 3,
+        ImmediateDialError::NoAddressAvailable => 4,
+        ImmediateDialError::TaskClosed => 5,
+        ImmediateDialError::ChannelClogged => 6,
+        ImmediateDialError::PeerIdMissing => 7,
+    }
+}
+
 fn error_code(e: &RequestResponseError) -> u64 {
     match e {
         RequestResponseError::Rejected(RejectReason::ConnectionClosed) => 0,
         RequestResponseError::Rejected(RejectReason::SubstreamClosed) => 1,
         RequestResponseError::Rejected(RejectReason::DialFailed(None)) => 2,
-        RequestResponseError::Rejected(RejectReason::DialFailed(Some(_))) => 3,
+        RequestResponseError::Rejected(RejectReason::DialFailed(Some(e))) => 10 + dial_error_code(e),
         RequestResponseError::Rejected(RejectReason::SubstreamOpenError(_)) => 4,
         RequestResponseError::Canceled => 5,
         RequestResponseError::Timeout => 6,
@@ -217,14 +233,23 @@ struct Chan {
 struct World {
     peers: Vec<PeerId>,
     proto: VerifProtocol,
-    handle: RequestResponseHandle,
+    /// `None` once the user has dropped the handle
+    handle: Option<RequestResponseHandle>,
     connected: Vec<bool>,
     opens: Vec<(usize, usize)>, // (substream id, peer index)
     chans: Vec<Chan>,
     hpend: Vec<usize>,
     feedback: Vec<(usize, futures::channel::oneshot::Receiver<()>)>,
-    /// `Some`: the REAL `RequestResponseProtocol::run` future, polled by hand (no `step`, no dumps)
+    /// the REAL `RequestResponseProtocol::run` future, polled by hand; `None` once it has returned
     run: Option<futures::future::BoxFuture<'static, ()>>,
+    /// what the harness made the transport manager believe about each peer (view codes of Model.v)
+    view: Vec<u64>,
+    /// peers with an accepted dial that the environment has not answered yet
+    owed: Vec<bool>,
+    /// the manager's command channel was filled up by the harness
+    clogged: bool,
+    /// the environment's books and the manager's command channel disagree about the dials
+    books_off: bool,
 }
 
 impl World {
@@ -232,29 +257,32 @@ impl World {
         self.peers.iter().position(|x| x == p).map(|i| i as u64).unwrap_or(99)
     }
 
-    /// Lets the event loop run until nothing is ready; collects what became observable.
-    /// Step mode: the loop is single-stepped (cfg-gated copy of the select arms, state dumps
-    /// available). Run mode: the real `run` future is polled by hand; it may park in the middle of
-    /// a handler when the event channel is full, so events are drained between polls until a poll
-    /// brings nothing new.
+    /// Polls the real `run` future until nothing is ready; collects what became observable. The
+    /// loop may park in the middle of a handler when the event channel is full, so the user's
+    /// events are drained between polls until a poll brings nothing new.
     async fn settle(&mut self, events: &mut Vec<Vec<u64>>) {
-        if self.run.is_none() {
-            for _ in 0..10_000 {
-                match self.proto.step().await {
-                    VerifStep::Idle | VerifStep::Exit => break,
-                    _ => {}
-                }
-            }
-            self.collect(events);
-            return;
-        }
+        self.poll_loop(events).await;
+        self.collect(events);
+    }
+
+    async fn poll_loop(&mut self, events: &mut Vec<Vec<u64>>) {
         let mut quiet = 0;
         for _ in 0..100_000 {
-            if let Some(run) = self.run.as_mut() {
-                let _ = futures::poll!(run.as_mut());
+            let mut finished = false;
+            match self.run.as_mut() {
+                Some(run) => {
+                    if let Poll::Ready(()) = futures::poll!(run.as_mut()) {
+                        finished = true;
+                    }
+                }
+                None => break,
+            }
+            if finished {
+                self.run = None;
+                events.push(vec![13, 1]);
             }
             // only the user side is drained while the loop may be parked in a handler; the scripted
-            // connections read their command channels after the loop has come to rest, as in step mode
+            // connections read their command channels after the loop has come to rest
             let before = events.len();
             self.collect_user(events);
             if events.len() == before {
@@ -266,7 +294,6 @@ impl World {
                 quiet = 0;
             }
         }
-        self.collect(events);
     }
 
     fn collect(&mut self, events: &mut Vec<Vec<u64>>) {
@@ -275,7 +302,7 @@ impl World {
     }
 
     fn collect_user(&mut self, events: &mut Vec<Vec<u64>>) {
-        while let Some(Some(ev)) = self.handle.next().now_or_never() {
+        while let Some(Some(ev)) = self.handle.as_mut().and_then(|h| h.next().now_or_never()) {
             match ev {
                 RequestResponseEvent::ResponseReceived { request_id, response, fallback, .. } => {
                     let (len, tag) = describe(&response);
@@ -307,6 +334,41 @@ impl World {
             }
         }
         self.feedback = waiting;
+        // the calls of TransportService::dial and what they returned
+        let mut sent_commands = vec![0usize; self.peers.len()];
+        for (peer, error) in rrv::verif_dial_log::take() {
+            let p = self.peer_index(&peer);
+            let res = match error {
+                Some(e) => dial_error_code(&e),
+                // Ok(()): a command went to the manager unless a dial was in progress already
+                None => {
+                    if let Some(o) = self.owed.get_mut(p as usize) {
+                        *o = true;
+                    }
+                    if matches!(self.view.get(p as usize), Some(3) | Some(5) | Some(6)) {
+                        1
+                    } else {
+                        if let Some(n) = sent_commands.get_mut(p as usize) {
+                            *n += 1;
+                        }
+                        0
+                    }
+                }
+            };
+            events.push(vec![11, p, res]);
+        }
+        // cross-check with the manager's command channel: one DialPeer per `Ok` outside a dial in progress
+        if !self.clogged {
+            let mut got = vec![0usize; self.peers.len()];
+            for peer in self.proto.clog_manager(false) {
+                if let Some(n) = got.get_mut(self.peer_index(&peer) as usize) {
+                    *n += 1;
+                }
+            }
+            if got != sent_commands {
+                self.books_off = true;
+            }
+        }
     }
 
     fn collect_transport(&mut self, events: &mut Vec<Vec<u64>>) {
@@ -329,8 +391,12 @@ impl World {
         }
     }
 
+    /// The bookkeeping the real loop published when it last came back to its `select!`.
     fn dump(&self, out: &mut Vec<u64>) {
-        let d = self.proto.dump();
+        let d = match (self.run.is_some(), rrv::published_dump()) {
+            (true, Some(d)) => d,
+            _ => Default::default(),
+        };
         let mut peers: Vec<(u64, Vec<usize>, Vec<usize>)> =
             d.peers.iter().map(|(p, a, i)| (self.peer_index(p), a.clone(), i.clone())).collect();
         peers.sort();
@@ -376,9 +442,25 @@ struct StepRec {
     dump: Vec<u64>,
 }
 
-/// How the protocol object is driven: `None` = single-stepped copy of the loop with dumps;
-/// `Some(channels)` = the real `run` future, optionally with small event / command channels.
-type Mode = Option<Option<(usize, usize)>>;
+/// How the event channel (protocol -> user) is sized: `None` = the default, `Some(n)` = capacity n.
+type Mode = Option<usize>;
+
+const TMO_MS: u64 = 5000;
+
+/// Width (number of fields including the tag) of an op.
+fn op_width(tag: u64) -> usize {
+    match tag {
+        0 | 23 => 8,
+        1 | 3 | 4 | 7 | 8 | 10 | 11 | 12 | 16 | 17 | 26 | 27 | 29 => 2,
+        2 | 5 | 9 | 13 | 14 | 21 => 4,
+        6 | 28 => 3,
+        15 | 25 => 5,
+        18 | 19 | 20 => 6,
+        24 => 7,
+        22 | 30 | 31 => 1,
+        _ => usize::MAX,
+    }
+}
 
 /// Returns what every stimulus made observable and, for the stimuli that make two things ready
 /// at the same instant, which one the implementation looked at first.
@@ -390,12 +472,15 @@ async fn run_ops(c: &[u64], mode: Mode) -> Option<(Vec<StepRec>, Vec<u64>)> {
         return None;
     }
     let channels = match mode {
-        Some(Some((event_cap, _))) => Some((event_cap, if ccap > 0 { ccap as usize } else { 4096 })),
-        _ => if ccap > 0 { Some((4096, ccap as usize)) } else { None },
+        Some(event_cap) => Some((event_cap, if ccap > 0 { ccap as usize } else { 4096 })),
+        None => if ccap > 0 { Some((4096, ccap as usize)) } else { None },
     };
     let mut choices: Vec<u64> = Vec::new();
     let mut peers: Vec<PeerId> = (0..NPEERS).map(|_| PeerId::random()).collect();
-    let dialable: Vec<PeerId> = peers.iter().take((ndial as usize).min(NPEERS)).cloned().collect();
+    let ndial = (ndial as usize).min(NPEERS);
+    let dialable: Vec<PeerId> = peers.iter().take(ndial).cloned().collect();
+    rrv::reset_published();
+    rrv::verif_dial_log::enable(true);
     let (mut proto, handle) = VerifProtocol::new_full(
         max_size as usize,
         None,
@@ -407,72 +492,197 @@ async fn run_ops(c: &[u64], mode: Mode) -> Option<(Vec<StepRec>, Vec<u64>)> {
     if selfp != 0 {
         peers[NPEERS - 1] = proto.local_peer();
     }
-    let run = if mode.is_some() { Some(proto.take_run()) } else { None };
+    let run = Some(proto.take_run());
     let mut w = World {
         run,
         peers,
         proto,
-        handle,
+        handle: Some(handle),
         connected: vec![false; NPEERS],
         opens: Vec::new(),
         chans: Vec::new(),
         hpend: Vec::new(),
         feedback: Vec::new(),
+        view: (0..NPEERS).map(|p| if p < ndial { 1 } else { 0 }).collect(),
+        owed: vec![false; NPEERS],
+        clogged: false,
+        books_off: false,
     };
     let mut out: Vec<StepRec> = Vec::new();
     let mut i = 6;
     for _ in 0..nops {
         let tag = *c.get(i)?;
-        let a = |k: usize| c.get(i + k).copied();
+        let base = i;
+        let a = move |k: usize| c.get(base + k).copied();
         let mut events: Vec<Vec<u64>> = Vec::new();
         let mut target: Option<u64> = None;
         let mut race: Option<u64> = None;
         let mut race_rid = 0u64;
-        let width;
+        let width = op_width(tag);
+        if width == usize::MAX || i + width > c.len() {
+            return None;
+        }
+        // static checks of the fields (the same as Glue.decode_case)
         match tag {
-            0 => {
-                width = 8;
-                let (p, dial, len, t) = (a(1)? as usize, a(2)?, a(3)?, a(4)?);
-                let (fname, flen, ftag) = (a(5)?, a(6)?, a(7)?);
-                if p >= NPEERS || len > 1 << 20 || flen > 1 << 20 || fname > 2 {
+            0 | 23 => {
+                if a(1)? as usize >= NPEERS || a(3)? > 1 << 21 || a(6)? > 1 << 21 || a(5)? > 2 {
                     return None;
                 }
-                let opt = if dial != 0 { DialOptions::Dial } else { DialOptions::Reject };
-                let rid = match fallback_name(fname) {
-                    None => w.handle.try_send_request(w.peers[p], payload(len, t), opt).ok()?,
-                    Some(name) => w
-                        .handle
-                        .try_send_request_with_fallback(
-                            w.peers[p],
-                            payload(len, t),
-                            (litep2p::types::protocol::ProtocolName::from(name), payload(flen, ftag)),
-                            opt,
-                        )
-                        .ok()?,
+            }
+            18 | 24 => {
+                if a(1)? as usize >= NPEERS || a(4)? > 1 << 21 || a(3)? > 64 {
+                    return None;
+                }
+            }
+            19 => {
+                if a(4)? > 10_000_000 || a(2)? > 1 << 21 {
+                    return None;
+                }
+            }
+            20 | 9 | 14 | 15 | 25 => {
+                if a(2)? > 1 << 21 {
+                    return None;
+                }
+            }
+            21 => {
+                if a(2)? > 10_000_000 {
+                    return None;
+                }
+            }
+            2 => {
+                if a(1)? as usize >= NPEERS || a(3)? > 4096 {
+                    return None;
+                }
+            }
+            3 | 4 | 17 => {
+                if a(1)? as usize >= NPEERS {
+                    return None;
+                }
+            }
+            5 => {
+                if a(3)? > 2 {
+                    return None;
+                }
+            }
+            6 => {
+                if a(2)? > 2 {
+                    return None;
+                }
+            }
+            12 => {
+                if a(1)? > 10_000_000 {
+                    return None;
+                }
+            }
+            13 => {
+                if a(1)? as usize >= NPEERS || a(3)? > 2 {
+                    return None;
+                }
+            }
+            27 => {
+                if a(1)? > 1 {
+                    return None;
+                }
+            }
+            28 => {
+                if a(1)? as usize >= NPEERS || a(2)? > 6 {
+                    return None;
+                }
+            }
+            _ => {}
+        }
+        i += width;
+        if w.run.is_none() {
+            // the event loop has ended: nothing is left to stimulate or to observe
+            out.push(StepRec { target: None, events: Vec::new(), dump: vec![0; 7] });
+            continue;
+        }
+        let opt = |dial: u64| if dial != 0 { DialOptions::Dial } else { DialOptions::Reject };
+        match tag {
+            0 | 23 => {
+                let (p, dial, len, t) = (a(1)? as usize, a(2)?, a(3)?, a(4)?);
+                let (fname, flen, ftag) = (a(5)?, a(6)?, a(7)?);
+                let peer = w.peers[p];
+                let handle = w.handle.as_mut()?;
+                let rid = if tag == 0 {
+                    match fallback_name(fname) {
+                        None => handle.try_send_request(peer, payload(len, t), opt(dial)).ok()?,
+                        Some(name) => handle
+                            .try_send_request_with_fallback(
+                                peer,
+                                payload(len, t),
+                                (litep2p::types::protocol::ProtocolName::from(name), payload(flen, ftag)),
+                                opt(dial),
+                            )
+                            .ok()?,
+                    }
+                } else {
+                    // the async variants: the command channel is empty, the call must not wait
+                    let polled = match fallback_name(fname) {
+                        None => handle.send_request(peer, payload(len, t), opt(dial)).now_or_never(),
+                        Some(name) => handle
+                            .send_request_with_fallback(
+                                peer,
+                                payload(len, t),
+                                (litep2p::types::protocol::ProtocolName::from(name), payload(flen, ftag)),
+                                opt(dial),
+                            )
+                            .now_or_never(),
+                    };
+                    match polled {
+                        Some(r) => {
+                            events.push(vec![12, 0]);
+                            r.ok()?
+                        }
+                        None => {
+                            // (the dropped call has burned an id; the model will disagree)
+                            events.push(vec![12, 1]);
+                            RequestId::from(usize::MAX >> 8)
+                        }
+                    }
                 };
                 events.push(vec![1, rid.verif_as_usize() as u64]);
             }
-            18 => {
+            18 | 24 => {
                 // a burst of try_send_request: the command channel takes what it has room for
-                width = 6;
                 let (p, dial, n, len, t) = (a(1)? as usize, a(2)?, a(3)?, a(4)?, a(5)?);
-                if p >= NPEERS || len > 1 << 20 || n > 64 {
-                    return None;
-                }
+                let peer = w.peers[p];
                 for _ in 0..n {
-                    let opt = if dial != 0 { DialOptions::Dial } else { DialOptions::Reject };
-                    if let Ok(rid) = w.handle.try_send_request(w.peers[p], payload(len, t), opt) {
+                    if let Ok(rid) = w.handle.as_mut()?.try_send_request(peer, payload(len, t), opt(dial)) {
                         events.push(vec![1, rid.verif_as_usize() as u64]);
                     }
+                }
+                if tag == 24 {
+                    // ... followed by the async send_request: it waits iff the channel is full and gets
+                    // through once the event loop has taken a command
+                    let mut handle = w.handle.take()?;
+                    {
+                        let mut fut = Box::pin(handle.send_request(peer, payload(len, t), opt(dial)));
+                        let mut res = futures::poll!(fut.as_mut());
+                        events.push(vec![12, if res.is_pending() { 1 } else { 0 }]);
+                        let mut rounds = 0;
+                        let dropit = a(6)? != 0;
+                        while res.is_pending() && !dropit && rounds < 64 {
+                            if let Some(run) = w.run.as_mut() {
+                                let _ = futures::poll!(run.as_mut());
+                            }
+                            res = futures::poll!(fut.as_mut());
+                            rounds += 1;
+                        }
+                        match res {
+                            Poll::Ready(Ok(rid)) => events.push(vec![1, rid.verif_as_usize() as u64]),
+                            Poll::Ready(Err(_)) => events.push(vec![99, 4]),
+                            // the user gives up waiting: the future is dropped, its id is gone
+                            Poll::Pending if dropit => {}
+                            Poll::Pending => events.push(vec![99, 5]),
+                        }
+                    }
+                    w.handle = Some(handle);
                 }
             }
             19 => {
                 // the remote answers and the clock passes the deadline before the loop runs again
-                width = 6;
                 let (k, len, t, dt) = (a(1)?, a(2)?, a(3)?, a(4)?);
-                if dt > 10_000_000 || len > 1 << 20 {
-                    return None;
-                }
                 if !w.chans.is_empty() {
                     let ci = (k % w.chans.len() as u64) as usize;
                     target = Some(ci as u64);
@@ -486,11 +696,7 @@ async fn run_ops(c: &[u64], mode: Mode) -> Option<(Vec<StepRec>, Vec<u64>)> {
             }
             20 => {
                 // the remote answers and the user cancels before the loop runs again
-                width = 6;
                 let (k, len, t, rid) = (a(1)?, a(2)?, a(3)?, a(4)?);
-                if len > 1 << 20 {
-                    return None;
-                }
                 if !w.chans.is_empty() {
                     let ci = (k % w.chans.len() as u64) as usize;
                     target = Some(ci as u64);
@@ -499,37 +705,28 @@ async fn run_ops(c: &[u64], mode: Mode) -> Option<(Vec<StepRec>, Vec<u64>)> {
                         ch.carrier.feed(&frame(len, t));
                     }
                 }
-                w.handle.cancel_request(RequestId::from(rid as usize)).await;
+                w.handle.as_mut()?.cancel_request(RequestId::from(rid as usize)).await;
                 race = Some(20);
             }
             21 => {
                 // the user cancels and the clock passes the deadline before the loop runs again
-                width = 4;
                 let (rid, dt) = (a(1)?, a(2)?);
-                if dt > 10_000_000 {
-                    return None;
-                }
-                w.handle.cancel_request(RequestId::from(rid as usize)).await;
+                w.handle.as_mut()?.cancel_request(RequestId::from(rid as usize)).await;
                 tokio::time::advance(Duration::from_millis(dt)).await;
                 race = Some(21);
                 race_rid = rid;
             }
             22 => {
-                width = 1;
-                w.proto.drop_manager();
+                w.proto.close_manager_commands();
             }
             1 => {
-                width = 2;
-                w.handle.cancel_request(RequestId::from(a(1)? as usize)).await;
+                w.handle.as_mut()?.cancel_request(RequestId::from(a(1)? as usize)).await;
             }
             2 => {
-                width = 4;
                 let (p, broken, cap) = (a(1)? as usize, a(2)?, a(3)?);
-                if p >= NPEERS || cap > 4096 {
-                    return None;
-                }
                 if !w.connected[p] {
                     w.connected[p] = true;
+                    w.owed[p] = false;
                     if cap == 0 {
                         w.proto.inject_connection_established(w.peers[p]);
                     } else {
@@ -544,11 +741,7 @@ async fn run_ops(c: &[u64], mode: Mode) -> Option<(Vec<StepRec>, Vec<u64>)> {
                 }
             }
             3 => {
-                width = 2;
                 let p = a(1)? as usize;
-                if p >= NPEERS {
-                    return None;
-                }
                 if w.connected[p] {
                     w.connected[p] = false;
                     w.proto.inject_connection_closed(w.peers[p]);
@@ -556,19 +749,12 @@ async fn run_ops(c: &[u64], mode: Mode) -> Option<(Vec<StepRec>, Vec<u64>)> {
                 }
             }
             4 => {
-                width = 2;
                 let p = a(1)? as usize;
-                if p >= NPEERS {
-                    return None;
-                }
+                w.owed[p] = false;
                 w.proto.inject_dial_failure(w.peers[p]);
             }
             5 => {
-                width = 4;
                 let (k, gate, neg) = (a(1)?, a(2)?.min(2) as u8, a(3)?);
-                if neg > 2 {
-                    return None;
-                }
                 if let Some((sid, p)) = nth_mod(k, &w.opens) {
                     target = Some(sid as u64);
                     w.opens.retain(|(s, _)| *s != sid);
@@ -578,16 +764,14 @@ async fn run_ops(c: &[u64], mode: Mode) -> Option<(Vec<StepRec>, Vec<u64>)> {
                 }
             }
             6 => {
-                width = 3;
                 let (k, unsupported) = (a(1)?, a(2)?);
                 if let Some((sid, _)) = nth_mod(k, &w.opens) {
                     target = Some(sid as u64);
                     w.opens.retain(|(s, _)| *s != sid);
-                    w.proto.inject_substream_open_failure(sid, unsupported != 0);
+                    w.proto.inject_substream_open_failure_kind(sid, unsupported as usize);
                 }
             }
             7 | 8 | 10 | 11 => {
-                width = 2;
                 if !w.chans.is_empty() {
                     let ci = (a(1)? % w.chans.len() as u64) as usize;
                     target = Some(ci as u64);
@@ -613,35 +797,25 @@ async fn run_ops(c: &[u64], mode: Mode) -> Option<(Vec<StepRec>, Vec<u64>)> {
                 }
             }
             9 | 14 => {
-                width = 4;
                 let (k, len, t) = (a(1)?, a(2)?, a(3)?);
                 if !w.chans.is_empty() {
                     let ci = (k % w.chans.len() as u64) as usize;
                     target = Some(ci as u64);
                     let ch = &mut w.chans[ci];
-                    if tag == 9 && ch.out && ch.seen && len <= (1 << 20) {
+                    if tag == 9 && ch.out && ch.seen {
                         ch.carrier.feed(&frame(len, t));
                     }
-                    if tag == 14 && !ch.out && len <= (1 << 20) {
+                    if tag == 14 && !ch.out {
                         ch.seen = true;
                         ch.carrier.feed(&frame(len, t));
                     }
                 }
             }
             12 => {
-                width = 2;
-                let dt = a(1)?;
-                if dt > 10_000_000 {
-                    return None;
-                }
-                tokio::time::advance(Duration::from_millis(dt)).await;
+                tokio::time::advance(Duration::from_millis(a(1)?)).await;
             }
             13 => {
-                width = 4;
                 let (p, gate, neg) = (a(1)? as usize, a(2)?.min(2) as u8, a(3)?);
-                if p >= NPEERS || neg > 2 {
-                    return None;
-                }
                 if w.connected[p] {
                     target = Some(w.chans.len() as u64);
                     let carrier = Carrier::new(gate);
@@ -649,44 +823,103 @@ async fn run_ops(c: &[u64], mode: Mode) -> Option<(Vec<StepRec>, Vec<u64>)> {
                     w.proto.inject_substream_opened_with_fallback(w.peers[p], None, Box::new(carrier), fallback_name(neg));
                 }
             }
-            15 => {
-                width = 5;
+            15 | 25 => {
                 let (k, len, t, fb) = (a(1)?, a(2)?, a(3)?, a(4)?);
-                if len > 1 << 20 {
-                    return None;
-                }
-                if let Some(irid) = nth_mod(k, &w.hpend) {
-                    target = Some(irid as u64);
+                // 15: one of the requests waiting for the user; 25: any request id whatsoever
+                let pick = if tag == 15 { nth_mod(k, &w.hpend) } else { Some(k as usize) };
+                if let Some(irid) = pick {
+                    let known = w.hpend.contains(&irid);
+                    if known {
+                        target = Some(irid as u64);
+                    }
                     w.hpend.retain(|x| *x != irid);
                     if fb != 0 {
                         let (tx, rx) = futures::channel::oneshot::channel();
-                        w.feedback.push((irid, rx));
-                        w.handle.send_response_with_feedback(RequestId::from(irid), payload(len, t), tx);
+                        if known {
+                            w.feedback.push((irid, rx));
+                        }
+                        w.handle.as_mut()?.send_response_with_feedback(RequestId::from(irid), payload(len, t), tx);
                     } else {
-                        w.handle.send_response(RequestId::from(irid), payload(len, t));
+                        w.handle.as_mut()?.send_response(RequestId::from(irid), payload(len, t));
                     }
                 }
             }
-            16 => {
-                width = 2;
-                if let Some(irid) = nth_mod(a(1)?, &w.hpend) {
-                    target = Some(irid as u64);
+            16 | 26 => {
+                let pick = if tag == 16 { nth_mod(a(1)?, &w.hpend) } else { Some(a(1)? as usize) };
+                if let Some(irid) = pick {
+                    if w.hpend.contains(&irid) {
+                        target = Some(irid as u64);
+                    }
                     w.hpend.retain(|x| *x != irid);
-                    w.handle.reject_request(RequestId::from(irid));
+                    w.handle.as_mut()?.reject_request(RequestId::from(irid));
                 }
             }
             17 => {
-                width = 2;
-                let p = a(1)? as usize;
-                if p >= NPEERS {
-                    return None;
+                w.proto.break_connection(w.peers[a(1)? as usize]);
+            }
+            27 => {
+                // the event loop ends: the user drops the handle / the service's event channel closes
+                // (the response futures die with the loop; their feedback channels are not watched any more)
+                w.feedback.clear();
+                if a(1)? == 0 {
+                    w.handle = None;
+                } else {
+                    w.proto.close_service();
                 }
-                w.proto.break_connection(w.peers[p]);
+            }
+            28 => {
+                let (p, v) = (a(1)? as usize, a(2)?);
+                w.view[p] = v;
+                w.proto.force_manager_peer(w.peers[p], v as usize);
+            }
+            29 => {
+                w.clogged = a(1)? != 0;
+                let _ = w.proto.clog_manager(w.clogged);
+            }
+            30 => {
+                // the environment discharges what it owes: a DialFailure for every accepted,
+                // unanswered dial, ConnectionClosed for every connection, and the clock passes
+                // every deadline
+                for p in 0..NPEERS {
+                    if w.owed[p] {
+                        w.owed[p] = false;
+                        w.proto.inject_dial_failure(w.peers[p]);
+                    }
+                }
+                for p in 0..NPEERS {
+                    if w.connected[p] {
+                        w.connected[p] = false;
+                        w.proto.inject_connection_closed(w.peers[p]);
+                    }
+                }
+                w.opens.clear();
+                tokio::time::advance(Duration::from_millis(2 * TMO_MS + 1)).await;
+            }
+            31 => {
+                // the same, but the connections stay: every unanswered open_substream gets a
+                // SubstreamOpenFailure instead (silent peers must time out)
+                for p in 0..NPEERS {
+                    if w.owed[p] {
+                        w.owed[p] = false;
+                        w.proto.inject_dial_failure(w.peers[p]);
+                    }
+                }
+                for (sid, _) in std::mem::take(&mut w.opens) {
+                    w.proto.inject_substream_open_failure(sid, false);
+                }
+                tokio::time::advance(Duration::from_millis(2 * TMO_MS + 1)).await;
             }
             _ => return None,
         }
-        i += width;
         w.settle(&mut events).await;
+        if tag == 27 && w.run.is_some() {
+            // the loop did not end
+            events.push(vec![99, 6]);
+        }
+        if w.books_off {
+            w.books_off = false;
+            events.push(vec![99, 3]);
+        }
         events.sort();
         match race {
             // which of the two ready things did the implementation look at first?
@@ -697,14 +930,13 @@ async fn run_ops(c: &[u64], mode: Mode) -> Option<(Vec<StepRec>, Vec<u64>)> {
             None => {}
         }
         let mut dump = Vec::new();
-        if w.run.is_none() {
-            w.dump(&mut dump);
-        }
+        w.dump(&mut dump);
         out.push(StepRec { target, events, dump });
     }
     if i != c.len() {
         return None;
     }
+    rrv::verif_dial_log::enable(false);
     Some((out, choices))
 }
 
@@ -716,8 +948,7 @@ fn run_mode(c: &[u64], mode: Mode) -> Option<(Vec<StepRec>, Vec<u64>)> {
         .unwrap();
     // unconstrained: tokio's cooperative budget would otherwise make a ready channel or timer
     // report Pending after ~128 operations within this single never-yielding poll, which the
-    // non-blocking probes of the harness (now_or_never, the idle arm of step) would mistake
-    // for "nothing ready"
+    // non-blocking probes of the harness (now_or_never) would mistake for "nothing ready"
     rt.block_on(tokio::task::unconstrained(run_ops(c, mode)))
 }
 
@@ -738,16 +969,10 @@ fn run_until(c: &[u64], mode: Mode, want: &[u64]) -> Option<(Vec<StepRec>, bool)
 /// Writes the observed choices into the case (last field of the racing stimuli).
 fn with_choices(c: &[u64], choices: &[u64]) -> Vec<u64> {
     let mut c = c.to_vec();
-    let width = |tag: u64| -> usize {
-        match tag {
-            0 => 8, 1 => 2, 2 => 4, 3 | 4 => 2, 5 => 4, 6 => 3, 7 | 8 | 10 | 11 | 12 | 16 | 17 => 2,
-            9 | 14 => 4, 13 => 4, 15 => 5, 18 => 6, 19 | 20 => 6, 21 => 4, 22 => 1, _ => usize::MAX,
-        }
-    };
     let mut i = 6;
     let mut k = 0;
     while i < c.len() {
-        let w = width(c[i]);
+        let w = op_width(c[i]);
         if w == usize::MAX || i + w > c.len() {
             break;
         }
@@ -762,34 +987,30 @@ fn with_choices(c: &[u64], choices: &[u64]) -> Vec<u64> {
     c
 }
 
-/// Every case is run three times on fresh protocol objects:
-///  A. the REAL `RequestResponseProtocol::run` future polled by hand — its events are the ones
-///     printed (so a change inside `run` is seen);
-///  B. the single-stepped copy of the loop — it supplies the bookkeeping dumps;
-///  C. the real `run` with an event channel and a command channel of capacity 1, the loop parking
-///     inside handlers until the user drains — must show the same events as A ("nothing lost").
-/// If B or C disagrees with A on what one stimulus made observable, a marker event `99 which` is
-/// added for that stimulus (the model never prints one, so the case shows up as a disagreement);
-/// if it is C, C's events are printed instead of A's, so that the oracle judges them too.
+/// Every case is run twice on fresh protocol objects, both times as the REAL
+/// `RequestResponseProtocol::run` future polled by hand (so a change inside `run` is seen):
+///  A. with the default channel sizes — its events and the bookkeeping published by the loop
+///     itself are the ones printed;
+///  C. with an event channel of capacity 1, the loop parking inside handlers until the user
+///     drains — must show the same events and the same bookkeeping as A ("nothing lost").
+/// If C disagrees with A on what one stimulus made observable, a marker event `99 2` is added
+/// for that stimulus (the model never prints one, so the case shows up as a disagreement) and C's
+/// events are printed instead of A's, so that the oracle judges them too.
 fn run_case(c: &[u64]) -> (Vec<u64>, Vec<u64>) {
     let c0 = c.to_vec();
     let r = catch_unwind(AssertUnwindSafe(move || {
-        let (a, choices) = run_mode(&c0, Some(None))?;
+        let (a, choices) = run_mode(&c0, None)?;
         let c1 = with_choices(&c0, &choices);
-        let (b, b_ok) = run_until(&c0, None, &choices)?;
-        let (k, k_ok) = run_until(&c0, Some(Some((1, 1))), &choices)?;
-        if a.len() != b.len() || a.len() != k.len() {
+        let (k, k_ok) = run_until(&c0, Some(1), &choices)?;
+        if a.len() != k.len() {
             return Some((c1, vec![PANIC_MARK, 1]));
         }
         let mut out = vec![1u64];
-        for ((a, b), k) in a.iter().zip(b.iter()).zip(k.iter()) {
-            let same = |x: &StepRec| x.target == a.target && x.events == a.events;
-            let shown = if !same(k) && k_ok { k } else { a };
+        for (a, k) in a.iter().zip(k.iter()) {
+            let same = k.target == a.target && k.events == a.events && k.dump == a.dump;
+            let shown = if !same && k_ok { k } else { a };
             let mut events = shown.events.clone();
-            if !same(b) {
-                events.push(vec![99, 1]);
-            }
-            if !same(k) {
+            if !same {
                 events.push(vec![99, 2]);
             }
             out.push(shown.target.map(|t| t + 1).unwrap_or(0));
@@ -797,7 +1018,7 @@ fn run_case(c: &[u64]) -> (Vec<u64>, Vec<u64>) {
             for e in events.iter() {
                 out.extend(e.iter().copied());
             }
-            out.extend(b.dump.iter().copied());
+            out.extend(shown.dump.iter().copied());
         }
         Some((c1, out))
     }));
@@ -810,6 +1031,42 @@ fn run_case(c: &[u64]) -> (Vec<u64>, Vec<u64>) {
 
 // ------------------------------------------------------------------ generator
 
+fn assemble(header: [u64; 5], ops: Vec<Vec<u64>>) -> Vec<u64> {
+    let mut c = header.to_vec();
+    c.push(ops.len() as u64);
+    for op in ops {
+        c.extend(op);
+    }
+    c
+}
+
+/// The stimuli that end a history: usually the environment discharges everything it owes (so that
+/// "exactly one outcome" can be judged for every request of the case), sometimes the event loop
+/// is made to end.
+fn epilogue(rng: &mut Rng, ops: &mut Vec<Vec<u64>>) {
+    if rng.chance(4) {
+        ops.push(vec![27, rng.below(2)]);
+        if rng.chance(50) {
+            ops.push(vec![12, 5100]);
+        }
+    }
+    match rng.below(10) {
+        0..=4 => ops.push(vec![30]),
+        5..=7 => ops.push(vec![31]),
+        _ => {}
+    }
+}
+
+/// What the manager believes about a peer right after the protocol was told about a change:
+/// usually the truth, sometimes it lags behind or runs ahead.
+fn manager_follows(rng: &mut Rng, ops: &mut Vec<Vec<u64>>, p: u64, truth: u64) {
+    if rng.chance(75) {
+        ops.push(vec![28, p, truth]);
+    } else if rng.chance(30) {
+        ops.push(vec![28, p, rng.below(7)]);
+    }
+}
+
 /// Dialogue-shaped histories: the generator keeps a rough estimate of the environment (which
 /// peers are connected, how many substream-open commands and carriers exist, which inbound
 /// requests wait for the user) and mostly picks stimuli that hit something. The estimate may be
@@ -817,12 +1074,12 @@ fn run_case(c: &[u64]) -> (Vec<u64>, Vec<u64>) {
 fn gen_guided(rng: &mut Rng, thorough: bool) -> Vec<u64> {
     let max_inb = rng.pick(&[0u64, 0, 0, 2, 3, 6]);
     let ndial = rng.pick(&[2u64, 4, 4]);
-    let max_size = rng.pick(&[16u64, 300, 1024]);
+    let max_size = rng.pick(&[16u64, 300, 1024, 1024, 70_000, 1 << 20]);
     let npeers = rng.range(1, 3) as usize;
     let nops = if thorough { rng.range(10, 120) } else { rng.range(6, 50) };
     let selfp = if rng.chance(15) { 1 } else { 0 };
     let ccap = rng.pick(&[0u64, 0, 0, 1, 2, 3]);
-    let mut c = vec![max_inb, ndial, max_size, selfp, ccap, nops];
+    let mut ops: Vec<Vec<u64>> = Vec::new();
     let lens = [0u64, 1, 2, 7, max_size - 1, max_size];
     let mut races = 0;
     let mut connected = vec![false; npeers];
@@ -836,25 +1093,33 @@ fn gen_guided(rng: &mut Rng, thorough: bool) -> Vec<u64> {
     let mut waiting = 0u64;
     for _ in 0..nops {
         let p = rng.below(npeers as u64) as usize;
-        let len = if rng.chance(6) { max_size + 1 } else { rng.pick(&lens) };
+        // payloads at and around the maximum are rare when the maximum is large (they cost time)
+        let len = if rng.chance(6) { max_size + 1 } else if max_size > 2000 && rng.chance(55) { rng.pick(&[0u64, 1, 2, 7, 200]) } else { rng.pick(&lens) };
         let tag = rng.below(256);
+        // responses (both directions) go up to the maximum more often than requests
+        let rlen = if max_size > 2000 && rng.chance(50) { rng.pick(&[max_size - 1, max_size, max_size]) } else { len };
         let gate = rng.pick(&[1u64, 1, 1, 1, 0, 0, 2]);
         let roll = rng.below(100);
         let op: Vec<u64> = if roll < 22 {
             ids += 1;
-            let (fname, flen, ftag) = if rng.chance(30) { (rng.range(1, 2), rng.pick(&lens), rng.below(256)) } else { (0, 0, 0) };
-            if rng.chance(8) {
+            let (fname, flen, ftag) = if rng.chance(30) { (rng.range(1, 2), rng.pick(&lens).min(2000), rng.below(256)) } else { (0, 0, 0) };
+            if rng.chance(10) {
                 let n = rng.range(2, 5);
                 ids += n - 1;
                 let took = n.min(if ccap == 0 { 4096 } else { ccap });
                 if connected[p] { opens += took; } else { dialing[p] += took; }
-                vec![18, p as u64, 1, n, len, tag]
+                if rng.chance(50) {
+                    ids += 1;
+                    vec![24, p as u64, 1, n, len, tag, rng.below(2)]
+                } else {
+                    vec![18, p as u64, 1, n, len, tag]
+                }
             } else if connected[p] {
                 opens += 1;
-                vec![0, p as u64, rng.below(2), len, tag, fname, flen, ftag]
+                vec![if rng.chance(30) { 23 } else { 0 }, p as u64, rng.below(2), len, tag, fname, flen, ftag]
             } else {
                 dialing[p] += 1;
-                vec![0, p as u64, if rng.chance(85) { 1 } else { 0 }, len, tag, fname, flen, ftag]
+                vec![if rng.chance(30) { 23 } else { 0 }, p as u64, if rng.chance(85) { 1 } else { 0 }, len, tag, fname, flen, ftag]
             }
         } else if roll < 32 {
             let cap = if dialing[p] >= 2 && rng.chance(50) { rng.range(1, dialing[p] - 1) } else { rng.pick(&[0u64, 0, 0, 1, 2]) };
@@ -863,7 +1128,17 @@ fn gen_guided(rng: &mut Rng, thorough: bool) -> Vec<u64> {
                 opens += if cap == 0 { dialing[p] } else { dialing[p].min(cap) };
                 dialing[p] = 0;
             }
-            vec![2, p as u64, if rng.chance(5) { 1 } else { 0 }, cap]
+            // a connection whose command channel is dead: no substream can be opened, the peer is
+            // not registered although the manager has the connection
+            let broken = if rng.chance(8) { 1 } else { 0 };
+            if rng.chance(50) {
+                manager_follows(rng, &mut ops, p as u64, 2);
+                vec![2, p as u64, broken, cap]
+            } else {
+                ops.push(vec![2, p as u64, broken, cap]);
+                manager_follows(rng, &mut ops, p as u64, 2);
+                continue;
+            }
         } else if roll < 50 && opens > 0 {
             opens -= 1;
             out_chans.push(nchans);
@@ -881,7 +1156,7 @@ fn gen_guided(rng: &mut Rng, thorough: bool) -> Vec<u64> {
                     _ => vec![21, rng.below(ids + 1), rng.pick(&[5100u64, 2600]), 0],
                 }
             } else {
-                vec![9, rng.pick(&out_chans), len, tag]
+                vec![9, rng.pick(&out_chans), rlen, tag]
             }
         } else if roll < 66 && !blocked.is_empty() {
             let i = rng.below(blocked.len() as u64) as usize;
@@ -892,12 +1167,20 @@ fn gen_guided(rng: &mut Rng, thorough: bool) -> Vec<u64> {
             vec![12, rng.pick(&[1700u64, 2600, 5100, 300])]
         } else if roll < 76 && opens > 0 {
             opens -= 1;
-            vec![6, rng.below(opens + 1), rng.below(2)]
+            vec![6, rng.below(opens + 1), rng.below(3)]
         } else if roll < 79 {
             if connected[p] {
                 connected[p] = false;
             }
-            vec![3, p as u64]
+            // the protocol is told first, the manager catches up later (or not within this history)
+            ops.push(vec![3, p as u64]);
+            if rng.chance(35) {
+                ids += 1;
+                dialing[p] += 1;
+                ops.push(vec![0, p as u64, 1, len, tag, 0, 0, 0]);
+            }
+            manager_follows(rng, &mut ops, p as u64, 1);
+            continue;
         } else if roll < 81 {
             dialing[p] = 0;
             vec![4, p as u64]
@@ -914,20 +1197,29 @@ fn gen_guided(rng: &mut Rng, thorough: bool) -> Vec<u64> {
             vec![14, rng.pick(&in_chans), len, tag]
         } else if roll < 97 && waiting > 0 {
             waiting -= 1;
-            vec![15, rng.below(waiting + 1), len, tag, rng.below(2)]
+            if rng.chance(10) {
+                vec![25, rng.below(ids + 2), len, tag, rng.below(2)]
+            } else {
+                vec![15, rng.below(waiting + 1), rlen, tag, rng.below(2)]
+            }
         } else if roll < 98 && waiting > 0 {
             waiting -= 1;
-            vec![16, rng.below(waiting + 1)]
-        } else if !out_chans.is_empty() {
+            if rng.chance(20) { vec![26, rng.below(ids + 2)] } else { vec![16, rng.below(waiting + 1)] }
+        } else if !out_chans.is_empty() && rng.chance(60) {
             vec![rng.pick(&[10u64, 11]), rng.pick(&out_chans)]
-        } else if rng.chance(20) {
-            vec![22]
         } else {
-            vec![17, p as u64]
+            match rng.below(6) {
+                0 => vec![22],
+                1 => vec![29, rng.below(2)],
+                2 | 3 => vec![28, p as u64, rng.below(7)],
+                4 => vec![30],
+                _ => vec![17, p as u64],
+            }
         };
-        c.extend(op);
+        ops.push(op);
     }
-    c
+    epilogue(rng, &mut ops);
+    assemble([max_inb, ndial, max_size, selfp, ccap], ops)
 }
 
 fn gen_case(rng: &mut Rng, thorough: bool) -> Vec<u64> {
@@ -936,35 +1228,46 @@ fn gen_case(rng: &mut Rng, thorough: bool) -> Vec<u64> {
     }
     let max_inb = rng.pick(&[0u64, 0, 1, 2, 3, 4]);
     let ndial = rng.pick(&[0u64, 2, 3, 4, 4]);
-    let max_size = rng.pick(&[16u64, 16, 300, 1024]);
+    let max_size = rng.pick(&[16u64, 16, 300, 1024, 70_000]);
     let npeers = rng.range(1, NPEERS as u64);
     let nops = if thorough { rng.range(5, 120) } else { rng.range(3, 45) };
     let selfp = if rng.chance(20) { 1 } else { 0 };
     let ccap = rng.pick(&[0u64, 0, 0, 1, 2]);
-    let mut c = vec![max_inb, ndial, max_size, selfp, ccap, nops];
+    let mut ops: Vec<Vec<u64>> = Vec::new();
     let mut races = 0;
     let mut sent = 0u64; // request ids are allocated in order: a good guess for cancel targets
     let lens = [0u64, 1, 2, 7, max_size - 1, max_size, max_size + 1];
-    let style = rng.below(4);
+    let style = rng.below(5);
     for _ in 0..nops {
         let p = rng.below(npeers);
         let k = rng.below(8);
-        let len = if rng.chance(12) { max_size + 1 } else { rng.pick(&lens) };
+        let len = if rng.chance(12) { max_size + 1 } else if max_size > 2000 && rng.chance(55) { rng.pick(&[0u64, 1, 2, 7, 200]) } else { rng.pick(&lens) };
         let tag = rng.below(256);
+        let rlen = if max_size > 2000 && rng.chance(50) { rng.pick(&[max_size - 1, max_size, max_size]) } else { len };
         let gate = rng.pick(&[1u64, 1, 1, 0, 0, 2]);
         let roll = rng.below(100);
-        // style 0: outbound heavy; 1: dial heavy; 2: inbound heavy; 3: uniform
+        // style 0: outbound heavy; 1: dial heavy; 2: inbound heavy; 3: uniform; 4: dial heavy with a
+        // manager whose belief about the peers changes all the time
+        if style == 4 && rng.chance(25) {
+            ops.push(if rng.chance(12) { vec![29, rng.below(2)] } else { vec![28, p, rng.below(7)] });
+        }
         let op: Vec<u64> = match (style, roll) {
-            (1, 0..=29) | (_, 0..=19) => {
+            (1, 0..=29) | (4, 0..=29) | (_, 0..=19) => {
                 sent += 1;
-                if rng.chance(8) {
+                let dial = if style == 1 || style == 4 || rng.chance(60) { 1 } else { 0 };
+                if rng.chance(10) {
                     let n = rng.range(2, 4);
                     sent += n - 1;
-                    vec![18, p, 1, n, len, tag]
+                    if rng.chance(50) {
+                        sent += 1;
+                        vec![24, p, 1, n, len, tag, rng.below(2)]
+                    } else {
+                        vec![18, p, 1, n, len, tag]
+                    }
                 } else if rng.chance(25) {
-                    vec![0, p, if style == 1 || rng.chance(60) { 1 } else { 0 }, len, tag, rng.range(1, 2), rng.pick(&lens), rng.below(256)]
+                    vec![if rng.chance(30) { 23 } else { 0 }, p, dial, len, tag, rng.range(1, 2), rng.pick(&lens).min(2000), rng.below(256)]
                 } else {
-                    vec![0, p, if style == 1 || rng.chance(60) { 1 } else { 0 }, len, tag, 0, 0, 0]
+                    vec![if rng.chance(30) { 23 } else { 0 }, p, dial, len, tag, 0, 0, 0]
                 }
             }
             (_, 20..=24) => vec![1, if sent == 0 { 0 } else { rng.below(sent + 2) }],
@@ -972,7 +1275,7 @@ fn gen_case(rng: &mut Rng, thorough: bool) -> Vec<u64> {
             (_, 35..=39) => vec![3, p],
             (_, 40..=43) => vec![4, p],
             (_, 44..=55) => vec![5, k, gate, rng.pick(&[0u64, 0, 0, 1, 2])],
-            (_, 56..=58) => vec![6, k, rng.below(2)],
+            (_, 56..=58) => vec![6, k, rng.below(3)],
             (_, 59..=63) => vec![7, k],
             (_, 64..=65) => vec![8, k],
             (_, 66..=74) => {
@@ -984,7 +1287,7 @@ fn gen_case(rng: &mut Rng, thorough: bool) -> Vec<u64> {
                         _ => vec![21, rng.below(sent + 1), rng.pick(&[5100u64, 2600]), 0],
                     }
                 } else {
-                    vec![9, k, len, tag]
+                    vec![9, k, rlen, tag]
                 }
             }
             (_, 75..=76) => vec![10, k],
@@ -995,13 +1298,20 @@ fn gen_case(rng: &mut Rng, thorough: bool) -> Vec<u64> {
                 vec![13, p, gate, rng.pick(&[0u64, 0, 1, 2])]
             }
             (_, 87..=92) => vec![14, k, len, tag],
-            (_, 93..=96) => vec![15, k, len, tag, rng.below(2)],
-            (_, 97..=98) => vec![16, k],
-            _ => if rng.chance(25) { vec![22] } else { vec![17, p] },
+            (_, 93..=96) => if rng.chance(15) { vec![25, rng.below(sent + 2), len, tag, rng.below(2)] } else { vec![15, k, rlen, tag, rng.below(2)] },
+            (_, 97..=98) => if rng.chance(25) { vec![26, rng.below(sent + 2)] } else { vec![16, k] },
+            _ => match rng.below(8) {
+                0 => vec![22],
+                1 => vec![29, rng.below(2)],
+                2 | 3 | 4 => vec![28, p, rng.below(7)],
+                5 => vec![30],
+                _ => vec![17, p],
+            },
         };
-        c.extend(op);
+        ops.push(op);
     }
-    c
+    epilogue(rng, &mut ops);
+    assemble([max_inb, ndial, max_size, selfp, ccap], ops)
 }
 
 pub fn main(args: &Args) {
